@@ -42,27 +42,71 @@ EXTRA = {
 #   budget: `var` is decremented on every cycle, guarded by a raise when exhausted, never re-assigned.
 #   consumer: every cycle consumes one element of a finite stream (`next(...)`, `.token()`), and the
 #           loop leaves when the stream is exhausted.
+# Keys are spelled without local names: the variant variable is `$v`, every other local of the function is `_`
+# (globals, builtins, attribute names stay) - renaming a local is a behaviour-preserving edit.
 LOOPS = {
-    ("Execer._parse_ctx_free._try_parse", "not parsed"): dict(kind="budget", var="max_retries"),
-    ("_have_open_triple_quotes", "i < n"): dict(
-        kind="index", var="i", dir=+1,
+    ("Execer._parse_ctx_free._try_parse", "not _"): dict(kind="budget"),
+    ("_have_open_triple_quotes", "$v < _"): dict(
+        kind="index", dir=+1,
         also={
-            "i = n if j < 0 else j + 1": "j = s.find('\\n', i) is >= i when found, so j + 1 > i; otherwise i jumps to the bound n",
-            "i = end": "end starts at i + 1 or i + 3 and is only increased by the inner scans",
+            "$v = _ if _ < 0 else _ + 1": "j = s.find('\\n', i) is >= i when found, so j + 1 > i; otherwise i jumps to the bound n",
+            "$v = _": "`i = end`: end starts at i + 1 or i + 3 and is only increased by the inner scans",
         },
     ),
-    ("_have_open_triple_quotes", "j >= 0 and len(prefix) < 2 and (s[j] in _STR_PREFIX_CHARS)"): dict(kind="index", var="j", dir=-1),
-    ("_have_open_triple_quotes", "end < n"): dict(kind="index", var="end", dir=+1),
-    ("_ends_with_line_continuation", "i < end"): dict(kind="index", var="i", dir=+1),
-    ("get_logical_line", "idx > 0"): dict(kind="index", var="idx", dir=-1),
-    ("get_logical_line", "(_ends_with_line_continuation(line, linecont) or open_triple) and idx < nlines - 1"): dict(kind="index", var="idx", dir=+1),
-    ("CtxAwareTransformer._looks_like_flag_subproc", "isinstance(rhs, UnaryOp) and isinstance(rhs.op, USub)"): dict(
-        kind="descent", var="rhs", dir=-1,
-        also={"rhs = rhs.operand": "each cycle descends into a strict sub-tree of a finite syntax tree"},
+    ("_have_open_triple_quotes", "$v >= 0 and len(_) < 2 and (_[$v] in _STR_PREFIX_CHARS)"): dict(kind="index", dir=-1),
+    ("_ends_with_line_continuation", "$v < _"): dict(kind="index", dir=+1),
+    ("get_logical_line", "$v > 0"): dict(kind="index", dir=-1),
+    ("get_logical_line", "(_ends_with_line_continuation(_, _) or _) and $v < _ - 1"): dict(kind="index", dir=+1),
+    ("CtxAwareTransformer._looks_like_flag_subproc", "isinstance($v, UnaryOp) and isinstance($v.op, USub)"): dict(
+        kind="descent", dir=-1,
+        also={"$v = $v.operand": "each cycle descends into a strict sub-tree of a finite syntax tree"},
     ),
-    ("Lexer.__iter__", "t is not None"): dict(kind="consumer", consume=("self.token",), reason="each cycle pulls one token from the finite token stream; None ends it"),
+    ("Lexer.__iter__", "_ is not None"): dict(kind="consumer", consume=("self.token",), reason="each cycle pulls one token from the finite token stream; None ends it"),
     ("get_tokens", "True"): dict(kind="consumer", consume=("next",), reason="each cycle pulls one tokenize token; StopIteration/TokenError/IndentationError break out"),
 }
+
+
+class _Abstract(ast.NodeTransformer):
+    def __init__(self, locals_, var):
+        self.l, self.v = locals_, var
+
+    def visit_Name(self, node):
+        if node.id == self.v:
+            return ast.copy_location(ast.Name(id="$v", ctx=node.ctx), node)
+        if node.id in self.l:
+            return ast.copy_location(ast.Name(id="_", ctx=node.ctx), node)
+        return node
+
+
+def _abstract(node, locals_, var):
+    """source text of node with the variant variable spelled `$v` and every other local `_`"""
+    from ..engine.dtable import clone
+
+    return " ".join(unparse(_Abstract(locals_, var).visit(clone(node))).split())
+
+
+def _classify(short_q, w, locals_):
+    """(entry, variant variable or None, key) for a while loop, by trying each local of the test as `$v`"""
+    names = []
+    for n in ast.walk(w.test):
+        if isinstance(n, ast.Name) and n.id in locals_ and n.id not in names:
+            names.append(n.id)
+    for v in names:
+        k = _abstract(w.test, locals_, v)
+        ent = LOOPS.get((short_q, k))
+        if ent is not None and ent["kind"] in ("index", "descent"):
+            return ent, v, k
+    k = _abstract(w.test, locals_, None)
+    ent = LOOPS.get((short_q, k))
+    if ent is not None and ent["kind"] == "budget":
+        # the budget: the one local decremented by a positive constant inside the loop
+        dec = sorted({unparse(x.target) for x in walk_local(w) if isinstance(x, ast.AugAssign) and isinstance(x.op, ast.Sub) and isinstance(x.target, ast.Name) and isinstance(const_value(x.value), int) and const_value(x.value) > 0})
+        if len(dec) == 1:
+            return ent, dec[0], k
+        return None, None, k
+    if ent is not None and ent["kind"] == "consumer":
+        return ent, None, k
+    return None, None, k
 
 
 def _bounds_var(test, var, direction):
@@ -111,9 +155,9 @@ def check(ctx):
         short_q = q if q.startswith(("Execer", "Lexer", "CtxAware")) else q.split(".")[-1]
         for w in whiles:
             n_while += 1
-            test = " ".join(unparse(w.test).split())
             st = f"{rel}:{q}"
-            ent = LOOPS.get((short_q, test))
+            locals_ = {n_ for n_ in df.all_defs(fn) if "." not in n_}
+            ent, var_, test = _classify(short_q, w, locals_)
             if ent is None:
                 ctx.ob("R1", st, f"`while {short(w.test, 60)}` is a loop with a confirmed variant", False, key=f"{short_q}|unclassified-loop|{test}", where=loc(w), detail="a new loop on the detection path must be argued and added to the catalogue")
                 continue
@@ -122,7 +166,7 @@ def check(ctx):
             inside = lambda m, w=w: m.ast is not None and (m.ast is w or lexically_inside(m.ast, w))
             only_inside = lambda a, b, l, inside=inside: not inside(b)
             if ent["kind"] in ("index", "budget", "descent"):
-                var = ent["var"]
+                var = var_
                 direction = ent.get("dir", -1)
 
                 def progress(m, var=var, direction=direction, ent=ent):
@@ -135,7 +179,7 @@ def check(ctx):
                         v = a.value
                         if isinstance(v, ast.BinOp) and unparse(v.left) == var and isinstance(const_value(v.right), int) and const_value(v.right) > 0:
                             return (isinstance(v.op, ast.Add) and direction > 0) or (isinstance(v.op, ast.Sub) and direction < 0)
-                        return " ".join(unparse(a).split()) in ent.get("also", {})
+                        return _abstract(a, locals_, var) in ent.get("also", {})
                     return False
 
                 # is the loop head reachable again, staying inside the loop, without passing a progress node?
@@ -228,10 +272,11 @@ def check(ctx):
                 # must be the handler variable of an enclosing SyntaxError/IndentationError handler
                 enc = [a for a in ancestors(n) if isinstance(a, ast.ExceptHandler) and a.name == nm]
                 ok = bool(enc) and unparse(enc[0].type) in ("SyntaxError", "IndentationError")
-            elif nm == "original_error":
-                vals = [d.value for d in tdefs.get("original_error", []) if d.kind == "assign"]
+            elif isinstance(n.exc, ast.Name) and tdefs.get(nm) and all(d.kind == "assign" for d in tdefs[nm]):
+                # a local that remembers the parser's first error (None until then)
+                vals = [d.value for d in tdefs.get(nm, []) if d.kind == "assign"]
                 ok = bool(vals) and all((isinstance(v, ast.Constant) and v.value is None) or (isinstance(v, ast.Name) and v.id in handlers and any(isinstance(a, ast.ExceptHandler) and a.name == v.id and unparse(a.type) in ("SyntaxError", "IndentationError") for a in ancestors(v))) for v in vals)
-            ctx.ob("R3", f"{EX}:Execer._parse_ctx_free._try_parse", f"`{short(n)}` re-raises an error the parser itself reported", ok, key=f"raise|{nm}", where=loc(n))
+            ctx.ob("R3", f"{EX}:Execer._parse_ctx_free._try_parse", f"`{short(n)}` re-raises an error the parser itself reported", ok, key="raise|" + ("handler-variable" if nm in handlers else "remembered-error" if isinstance(n.exc, ast.Name) else nm), where=loc(n))
     if n_raise < 5:
         raise AnalysisError(f"{EX}:_try_parse: only {n_raise} raise statements found")
 
